@@ -10,7 +10,7 @@ import sys
 
 import numpy as np
 
-from simkit.core import (EventLog, HarnessError, add_violation, bump, new_result, use_repo)
+from simkit.core import (EventLog, HarnessError, PlanTimeout, add_violation, bump, new_result, use_repo)
 from simkit.seams import OsShim, Seams, SimCrash, SimDisk, VirtualClock
 
 use_repo()
@@ -418,7 +418,7 @@ class World:
             outcome = "crashed"
         except StepCap:
             outcome = "stepcap"
-        except HarnessError:
+        except (HarnessError, PlanTimeout):
             raise
         except BaseException as e:     # noqa: B902  (we classify, never swallow)
             outcome, exc = "exception", e
